@@ -100,7 +100,7 @@ CLAIMED = {
  'C02': ('Theorem parseValue_complete: every layout (line breaks and comments after every opener, colon, comma, closer and string piece; '
          'optional trailing commas; the shapes () (x) (x,)) of every literal tree of atoms, numbers with a leading minus, runs of adjacent '
          'string literals, lists, tuples and dicts, to any nesting depth, parses to exactly that '
-         'literal and stops right after it - proved by mutual structural induction on the laid-out literal about the token-level mirror '
+         'literal and stops right after it; parseSingle_complete / parseSingle_rejects_trailing: gin.config.parse_value (mirror parseSingleValue) yields that literal when only line ends, blank lines and comments follow and a syntax error otherwise - proved by mutual structural induction on the laid-out literal about the token-level mirror '
          'of config_parser; plus layout_irrelevant, statement_rejects_trailing, minus_requires_basic, adjacent_strings_concat. The mirror '
          'runs on Python\'s own token stream and is compared statement by statement with the real parser on generated literals in random '
          'layouts and on a near-miss stream; ast.literal_eval of the same text is the independent oracle (value and type). Table on the real code: an equal literal of another type, zero sign or element types bound over the first (what is stored is the last text\'s value and type).',
